@@ -289,8 +289,9 @@ VH_MAIN_BEGIN
         if (ncat0 && dnull && dmax == 0) viol = 0; /* documented silent EOK */
 #ifdef LAYOUT_A
         /* overlap: decided in C07; here only that whatever is reported is reported once */
-        if (!viol && prec && in.doff != in.soff && rw_intersect) viol = 1; /* reads and writes intersect */
-        else if (!viol && !obj_disjoint) viol = rc != EOK;             /* touching objects, no intersection: C07 */
+        if (in.doff == in.soff) viol = rc != EOK;                         /* identical pointers: accepted where documented, judged by C07 */
+        else if (!viol && prec && rw_intersect) viol = 1;                  /* reads and writes intersect */
+        else if (!viol && !obj_disjoint) viol = rc != EOK;                /* touching objects, no intersection: C07 */
 #endif
         if (viol) {
             CHECK("C05", rc != EOK, "constraint violated but success returned");
